@@ -19,8 +19,8 @@ import impl
 import lib
 import universe
 
-COQ_TARGETS = ["theories/Props/C05.vo", "theories/Model/BuildTables.vo"]
-THEOREMS = ["C05_build_routes", "C05_unmarshal", "C05_marshal", "C05_key_ignores_var"]
+COQ_TARGETS = ["theories/Props/C05.vo", "theories/Model/BuildTables.vo", "theories/Model/CoreTables.vo"]
+THEOREMS = ["C05_build_routes"]
 
 
 def prove(run: lib.Run):
